@@ -282,9 +282,38 @@ func render(e node, l *layout) string {
 		return "(" + join(l, "assert", render(asNode(e[1]), l)) + ")"
 	case "eval":
 		return "(" + join(l, "eval", "(quote "+render(asNode(e[1]), nil)+")") + ")"
+	case "sq":
+		return "^" + renderSq(asNode(e[1]), l)
 	}
 	panic(fmt.Sprintf("render: unknown node %v", e[0]))
 }
+
+// templates of ["sq", T]: ["atom",datum] ["unq",e] ["splice",e] ["list",[T..]] ["arr",[T..]]
+func renderSq(t node, l *layout) string {
+	switch t[0] {
+	case "atom":
+		return renderDatum(asNode(t[1]))
+	case "unq":
+		return "~" + render(asNode(t[1]), l)
+	case "splice":
+		return "~@" + render(asNode(t[1]), l)
+	}
+	parts := []string{}
+	for _, x := range asSeq(t[1]) {
+		parts = append(parts, renderSq(asNode(x), l))
+	}
+	if t[0] == "arr" {
+		return "[" + strings.Join(parts, " ") + "]"
+	}
+	return "(" + strings.Join(parts, " ") + ")"
+}
+
+func nSq(t node) node             { return node{"sq", t} }
+func tqAtom(d node) node          { return node{"atom", d} }
+func tqUnq(e node) node           { return node{"unq", e} }
+func tqSplice(e node) node        { return node{"splice", e} }
+func tqList(ts ...node) node      { return node{"list", seq(ts)} }
+func tqArr(ts ...node) node       { return node{"arr", seq(ts)} }
 
 // renderProgram prints top-level forms, one per line, ending in a newline.
 func renderProgram(forms []node, l *layout) string {
